@@ -25,10 +25,13 @@ import (
 	"hash"
 	"io"
 	"math/big"
+	"strings"
 
 	"golang.org/x/crypto/cryptobyte"
 	cbasn1 "golang.org/x/crypto/cryptobyte/asn1"
 
+	zdsa "github.com/zmap/zcrypto/dsa"
+	zrsa "github.com/zmap/zcrypto/rsa"
 	"github.com/zmap/zcrypto/x509"
 	"verifmc/internal/fx"
 )
@@ -114,7 +117,67 @@ type pkey struct {
 	dsa    *stddsa.PrivateKey
 }
 
+// dsa2048q224: a (L=2048, N=224) DSA key, generated once with crypto/dsa
+// (GenerateParameters L2048N224 + GenerateKey) from a SHA-256 counter stream
+// seeded "c03-dsa2048q224"; it exists for the digest truncation of FIPS 186-4
+// §4.6 with a q that is shorter than SHA-256 and not 160 bits.
+var dsa2048q224 = [5]string{
+	"e0f81acf89aa4d5cc0a029a921e8ecb166312b68c12f36a9db46ed61043464953a574f86cf32e32861d09ae7f8d59f7d2ec4a2e5d978c42dcd072cc6c941ac37460ec46e9c6940761664041ddee29bf321c43bb9bd521531355e4a37f4e1789a2f3d1872eb9f3c8490af8be588ed43e0144b593bd0647de163be741c5518349de51fd74b043cf66c2222afece527c5981e8e40926de5d06c14f5a06fc233f5b59bcbf5df6ac6c7cfbca293aeb6a18e58e31b4d5d857377d08219f6189c7854a5f6e80a2183f42c6dc59d3cfa4ca7c0198b45b81733ddec806bc193eef97a2155f42d0082b5f72b45384999982a9e81bce519c1c3751bcee7a712ff91047ba21d",
+	"cf0a6fecc639a497078368f1c5ef545ea0b9de2c9aa3dd38452b3647",
+	"d96add4583826ce64f58027c14b7de0db1e3bc75cbcb4727a5fa523ad7f1153a5b5fa13b67add1fb0c92554bb60fa8ed065d131682a11c08c895706806d70f96f99cf2dc7ab0e5d5eabfec3a99fb6f9e551f059b53a49744816cc031572dc06988c41958312fd639a596ef7bdf450eb6cc5591e341a420b52c411cc2d2312f8469b33bf0e6476d35bff9c33973b7e598cd55f09ae976c89d5a392ac797976b0e591dce0fed0980f50cc41c1de2a519311666c8a0a06dba012c80af6ac9a513785ce1e610ae818c213aa1f56952929c0d88a2dcdebe0b569976c85770f06e7febbf90a04c88a8cb797b834306618de1f4ba9fa3ec4a7265dfb0247f7350c971a8",
+	"91f1ae9958d586790792e1e41f39cf5ddf8137fe8ce302bbcd5af36e5939efe375eb189e8217b94de34a927dc2bd1cc7c5a8836548c54e3bee165a39f7138bbf3714a853f13a05b43b5e766845d06a98844be6ba2e48b7b70b9b000f10f28b9adcdf797bd4ee2b53717812d49dc8009bde2500b64c150bc483b125c477e4bb2fa08ed565f61bda9114105c94e0c8c1d3978bf1456579fbabe828eafa1b6491efb83a5a465b80e671708e87a109b87ebada1a07dc72f423008350bd8ef84f3b1637ac8e1a987be04f2e84bb88e3494b0a95c6ef7118ecdeebe66dc9cea07b94c2f3776a1ea14948a88bc61f9741a0ac37a2a7092a4437562bde50d489d52791af",
+	"5b688c2dcefe21c7979fb92104dab70359a0d1caecadfd353c696d66",
+}
+
+func hexInt(s string) *big.Int {
+	x, ok := new(big.Int).SetString(s, 16)
+	if !ok {
+		panic("bad hex constant")
+	}
+	return x
+}
+
+func dsaKey(name string, p, q, g, y, x *big.Int) *pkey {
+	k := &pkey{name: name, fam: famDSA, bits: p.BitLen(),
+		zpub: &zdsa.PublicKey{Parameters: zdsa.Parameters{P: p, Q: q, G: g}, Y: y}}
+	k.dsa = &stddsa.PrivateKey{PublicKey: stddsa.PublicKey{Parameters: stddsa.Parameters{P: p, Q: q, G: g}, Y: y}, X: x}
+	return k
+}
+
+// loadKey resolves a fixture name. Derived names:
+//
+//	<ec>aug        the same EC key handed over as *x509.AugmentedECDSA, the form
+//	               every PARSED certificate/CSR carries (its own branch of CheckSignatureFromKey)
+//	nm-e:<rsa>     near miss: same modulus, public exponent e+2 (verification only)
+//	nm-negy:<ec>   near miss: the point (x, p-y), also on the curve (verification only)
+//	nm-y:<dsa>     near miss: same (p,q,g), y' = y*g mod p (verification only)
 func loadKey(name string) *pkey {
+	switch {
+	case strings.HasSuffix(name, "aug") && name[0] == 'p':
+		k := loadKey(strings.TrimSuffix(name, "aug"))
+		k.name = name
+		k.zpub = &x509.AugmentedECDSA{Pub: &k.ec.PublicKey}
+		return k
+	case strings.HasPrefix(name, "nm-e:"):
+		b := loadKey(name[5:])
+		e := new(big.Int).Add(b.ref.e, big.NewInt(2))
+		return &pkey{name: name, fam: famRSA, bits: b.bits, zpub: &zrsa.PublicKey{N: b.ref.n, E: e},
+			ref: &refRSA{n: b.ref.n, e: e, k: b.ref.k}}
+	case strings.HasPrefix(name, "nm-negy:"):
+		b := loadKey(name[8:])
+		pub := ecdsa.PublicKey{Curve: b.ec.Curve, X: b.ec.X, Y: new(big.Int).Sub(b.ec.Curve.Params().P, b.ec.Y)}
+		k := &pkey{name: name, fam: famECDSA, bits: b.bits, ec: &ecdsa.PrivateKey{PublicKey: pub}}
+		k.zpub = &k.ec.PublicKey
+		return k
+	case strings.HasPrefix(name, "nm-y:"):
+		b := loadKey(name[5:])
+		y := new(big.Int).Mul(b.dsa.Y, b.dsa.G)
+		y.Mod(y, b.dsa.P)
+		return dsaKey(name, b.dsa.P, b.dsa.Q, b.dsa.G, y, nil)
+	case name == "dsa2048q224":
+		c := dsa2048q224
+		return dsaKey(name, hexInt(c[0]), hexInt(c[1]), hexInt(c[2]), hexInt(c[3]), hexInt(c[4]))
+	}
 	switch {
 	case len(name) >= 3 && name[:3] == "rsa":
 		z := fx.ZRSA(name)
